@@ -238,7 +238,7 @@ pub fn run(mut ctx0: Ctx) {
                 for read_step in [16usize, 64] {
                     for drop_sink in [false, true] {
                         let download: Vec<u8> = (0..size).map(|i| b'a' + (i % 26) as u8).collect();
-                        let opts = vh1::ClientOpts { capacity, read_step, drop_sink_after_eof: drop_sink, client_closes_last: true };
+                        let opts = vh1::ClientOpts { capacity, read_step, drop_sink_after_eof: drop_sink, client_closes_last: true, peer_script: vec![] };
                         let desc = format!("CONNECT answered 200, {} payload bytes towards a client reading {} bytes at a time over a {}-byte transport, sink {} after eof()", size, read_step, capacity, if drop_sink { "dropped" } else { "flushed" });
                         let st2 = st.clone();
                         let (h2, d2) = (head.clone(), download.clone());
@@ -262,6 +262,94 @@ pub fn run(mut ctx0: Ctx) {
                         }
                     }
                 }
+            }
+        }
+    }
+    // ---- interleavings of the two directions: payload segments arrive while the peer is slow to take them and
+    // writes its own payload towards the client in between (every segment must come out of the upload side, every
+    // written byte must reach the client, whatever the order in which the codec's loop sees the events) -------------
+    {
+        let ctx = &mut ctx0;
+        let n_cases = if ctx.thorough() { 1500 } else { 200 };
+        for case in 0..n_cases {
+            let head = b"CONNECT example.org:443 HTTP/1.1\r\nHost: example.org:443\r\n\r\n".to_vec();
+            let nseg = 1 + ctx.rng.below(5) as usize;
+            let mut segs: Vec<Vec<u8>> = vec![];
+            for k in 0..nseg {
+                let len = *ctx.rng.pick(&[1usize, 4, 4, 17, 300, 5000]);
+                segs.push((0..len).map(|i| b'A' + ((k * 7 + i) % 26) as u8).collect());
+            }
+            let total: usize = segs.iter().map(|s| s.len()).sum();
+            let mut script = vec![];
+            let mut written: Vec<u8> = vec![];
+            // the first directed shape: every segment is in before the peer moves, one write, then the reads
+            if case % 4 == 0 {
+                script.push(vh1::PeerStep::Yield(8 * nseg + 8));
+            }
+            let nsteps = 2 + ctx.rng.below(8);
+            for j in 0..nsteps {
+                match ctx.rng.below(3) {
+                    0 => {
+                        let len = *ctx.rng.pick(&[1usize, 4, 64, 2000]);
+                        let b: Vec<u8> = (0..len).map(|i| b'a' + ((j as usize * 5 + i) % 26) as u8).collect();
+                        written.extend_from_slice(&b);
+                        script.push(vh1::PeerStep::Write(b));
+                    }
+                    1 => script.push(vh1::PeerStep::Read(total)),
+                    _ => script.push(vh1::PeerStep::Yield(*ctx.rng.pick(&[1usize, 3, 8, 20]))),
+                }
+            }
+            // the peer ends its side only when it has everything the client sent (an HTTP/1.1 tunnel has no half-close:
+            // the end of the peer's stream ends the session)
+            script.push(vh1::PeerStep::ReadUntil(total));
+            let mut chunks = vec![head.clone()];
+            chunks.extend(segs.iter().cloned());
+            let shape: Vec<String> = script
+                .iter()
+                .map(|s| match s {
+                    vh1::PeerStep::Write(b) => format!("write {}", b.len()),
+                    vh1::PeerStep::Read(_) => "read".to_string(),
+                    vh1::PeerStep::Yield(n) => format!("yield {}", n),
+                    vh1::PeerStep::ReadUntil(_) => "read the rest".to_string(),
+                })
+                .collect();
+            let desc = format!(
+                "CONNECT answered 200; the client sends payload segments of {:?} bytes; the peer does [{}], then ends its side",
+                segs.iter().map(|s| s.len()).collect::<Vec<_>>(),
+                shape.join(", ")
+            );
+            let opts = vh1::ClientOpts { capacity: 1 << 20, read_step: 0, drop_sink_after_eof: false, client_closes_last: true, peer_script: script };
+            let st2 = st.clone();
+            let handle = rt.spawn(async move { vh1::session_with(st2, chunks, true, vec![], opts).await });
+            let obs = rt.block_on(async { tokio::time::timeout(std::time::Duration::from_secs(8), handle).await });
+            ctx.stat("interleaved_sessions");
+            match obs {
+                Ok(Ok(o)) => {
+                    let expect_up: Vec<u8> = segs.concat();
+                    let out = &o.transport_out;
+                    let down_ok = out.starts_with(b"HTTP/1.1 200 OK\r\n")
+                        && out.windows(4).position(|w| w == b"\r\n\r\n").map(|p| out[p + 4..] == written[..]).unwrap_or(false);
+                    if o.upload != expect_up {
+                        ctx.oracle_failure(
+                            "upload_bytes_lost",
+                            &format!(
+                                "{}: the upload side delivered {} of the {} payload bytes (first difference at {:?}, ended with {})",
+                                desc,
+                                o.upload.len(),
+                                expect_up.len(),
+                                o.upload.iter().zip(expect_up.iter()).position(|(a, b)| a != b).or(Some(o.upload.len().min(expect_up.len()))),
+                                o.upload_end
+                            ),
+                        );
+                    } else if !down_ok || !o.transport_eof {
+                        ctx.oracle_failure(
+                            "download_not_finished",
+                            &format!("{}: the client got {} bytes (the 200 head and the {} written bytes unaltered: {}), end of stream seen: {}", desc, out.len(), written.len(), down_ok, o.transport_eof),
+                        );
+                    }
+                }
+                Ok(Err(e)) => ctx.oracle_failure("panic", &format!("HTTP/1.1 session panicked ({}): {}", e, desc)),
+                Err(_) => ctx.oracle_failure("spin_or_hang", &format!("HTTP/1.1 session did not finish in 8 s: {}", desc)),
             }
         }
     }
